@@ -20,16 +20,16 @@ import (
 const findingEdZip215 = "C29-ed25519-not-zip215"
 
 var (
-	edP  = new(big.Int).Sub(new(big.Int).Lsh(big.NewInt(1), 255), big.NewInt(19))
+	edP    = new(big.Int).Sub(new(big.Int).Lsh(big.NewInt(1), 255), big.NewInt(19))
 	edL, _ = new(big.Int).SetString("7237005577332262213973186563042994240857116359379907606001950938285454250989", 10) // 2^252 + 27742317777372353535851937790883648493
-	edD  = func() *big.Int {
+	edD    = func() *big.Int {
 		d := new(big.Int).ModInverse(big.NewInt(121666), edP)
 		d.Mul(d, big.NewInt(-121665))
 		return d.Mod(d, edP)
 	}()
-	edD2    = new(big.Int).Mod(new(big.Int).Lsh(edD, 1), edP)
+	edD2     = new(big.Int).Mod(new(big.Int).Lsh(edD, 1), edP)
 	edSqrtM1 = new(big.Int).Exp(big.NewInt(2), new(big.Int).Rsh(new(big.Int).Sub(edP, big.NewInt(1)), 2), edP)
-	edBase  = func() *edPoint {
+	edBase   = func() *edPoint {
 		// B: y = 4/5, x even
 		y := new(big.Int).ModInverse(big.NewInt(5), edP)
 		y.Mul(y, big.NewInt(4)).Mod(y, edP)
